@@ -286,6 +286,15 @@ func runScenario(sc scenario, s stream, bi builtImage, rec *verifkit.Recorder) (
 			e.fs.set(p)
 		case "corrupt":
 			path := xpkg.BuildPath(cacheDir, sc.RevName, ".gz")
+			if cacheEntry(e.fs.Fs, sc.RevName) == nil {
+				// warm the cache first so that there is something to damage
+				if _, _, p := e.reconcile(sc.Type, sc.RevName); p != nil {
+					return fmt.Sprintf("%s: warming reconcile panicked: %v", where, p), cr
+				}
+				if v := check(where+" (warming reconcile)", e.est.take()); v != "" {
+					return v, cr
+				}
+			}
 			if b := cacheEntry(e.fs.Fs, sc.RevName); b != nil {
 				nb := append([]byte(nil), b...)
 				at := clamp(st.At, 0, len(nb))
